@@ -191,9 +191,9 @@ def _valid_name_ascii(x: str) -> bool:
 
 def c17_cat_sym(m: int, site: int, blanks: int, x0: int, x1: int) -> bool:
     """
-    pre: 0 <= site <= 5 and 0 <= blanks <= 2
-    pre: 97 <= x0 <= 122 and 97 <= x1 <= 122
-    post: _ == True
+    vpre: 0 <= site <= 5 and 0 <= blanks <= 2
+    vpre: 97 <= x0 <= 122 and 97 <= x1 <= 122
+    vpost: _ == True
     """
     x = "zq" + S(x0, x1)  # never a defined name / type / list / parameter
     return cat_ok(m, site, blanks, x)
@@ -260,10 +260,10 @@ TVOC = [M.TEXT, M.CALC, M.BGROUP, M.EGROUP, M.BREPEAT, M.EREPEAT, M.SELECT_OTHER
 
 def c17_total3(k0: int, i1: int, i2: int, l0: int, l1: int) -> bool:
     """
-    pre: 0 <= i1 <= 15 and 0 <= i2 <= 15
-    pre: 33 <= l0 <= 126 and l0 != 36 and 33 <= l1 <= 126 and l1 != 36
-    raises: PyXFormError
-    post: _ == True
+    vpre: 0 <= i1 <= 15 and 0 <= i2 <= 15
+    vpre: 33 <= l0 <= 126 and l0 != 36 and 33 <= l1 <= 126 and l1 != 36
+    vraises: PyXFormError
+    vpost: _ == True
     """
     kinds = [k0, TVOC[i1], TVOC[i2]]
     wb = {"survey": M.rows_ext(kinds, S(l0, l1)), "choices": M.CHOICES, "survey_header": [dict(M.EXT_HEADER)]}
@@ -291,9 +291,9 @@ specialise(
 
 def c17_params(n: int, c0: int, c1: int, c2: int, c3: int) -> bool:
     """
-    pre: 32 <= c0 <= 126 and 32 <= c1 <= 126 and 32 <= c2 <= 126 and 32 <= c3 <= 126
-    raises: PyXFormError
-    post: _ == True
+    vpre: 32 <= c0 <= 126 and 32 <= c1 <= 126 and 32 <= c2 <= 126 and 32 <= c3 <= 126
+    vraises: PyXFormError
+    vpost: _ == True
     """
     from pyxform.validators.pyxform import parameters_generic as pg
 
@@ -319,8 +319,8 @@ specialise(
 
 def c17_android(n: int, c0: int, c1: int, c2: int, c3: int) -> bool:
     """
-    pre: 32 <= c0 <= 126 and 32 <= c1 <= 126 and 32 <= c2 <= 126 and 32 <= c3 <= 126
-    post: _ == True
+    vpre: 32 <= c0 <= 126 and 32 <= c1 <= 126 and 32 <= c2 <= 126 and 32 <= c3 <= 126
+    vpost: _ == True
     """
     from pyxform.validators.pyxform.android_package_name import validate_android_package_name as v
 
